@@ -890,6 +890,7 @@ func (r *replicateChannelManager) forwardMsg(targetPChannel string, msg *api.Rep
 	if handler == nil {
 		r.apiEventChan <- &api.ReplicateAPIEvent{
 			EventType: api.ReplicateError,
+			TaskID:    msg.TaskID,
 			Error:     errors.Newf("channel %s not found when forward the msg", targetPChannel),
 		}
 		log.Warn("channel not found when forward the msg",
@@ -1591,7 +1592,7 @@ func (r *replicateChannelHandler) handleStreamPack(forward bool, pack *msgstream
 		}
 		info, err := r.getCollectionTargetInfo(sourceCollectionID)
 		if err != nil {
-			r.sendErrEvent(err)
+			r.sendErrEvent(taskID, err)
 			log.Warn("fail to get collection info", zap.Int64("collection_id", sourceCollectionID), zap.Error(err))
 			return nil
 		}
@@ -1737,7 +1738,7 @@ func (r *replicateChannelHandler) handleStreamPack(forward bool, pack *msgstream
 			}
 		}
 		if err != nil {
-			r.sendErrEvent(err)
+			r.sendErrEvent(taskID, err)
 			log.Warn("fail to process the msg info", zap.Any("msg", msg.Type()), zap.Error(err))
 			return nil
 		}
@@ -1817,7 +1818,7 @@ func (r *replicateChannelHandler) handleStreamPack(forward bool, pack *msgstream
 	generateTS, ok := GetTSManager().UnsafeGetMaxTS(tsManagerChannelKey)
 	if !ok {
 		log.Warn("not found the max ts", zap.String("channel", r.targetPChannel))
-		r.sendErrEvent(fmt.Errorf("not found the max ts"))
+		r.sendErrEvent(taskID, fmt.Errorf("not found the max ts"))
 		return nil
 	}
 	GetTSManager().UnsafeUpdatePackTS(tsManagerChannelKey, newPack.BeginTs, func(newTS uint64) (uint64, bool) {
@@ -1996,9 +1997,10 @@ func copyMsgPositions(positions []*msgpb.MsgPosition) []*msgpb.MsgPosition {
 	return newPositions
 }
 
-func (r *replicateChannelHandler) sendErrEvent(err error) {
+func (r *replicateChannelHandler) sendErrEvent(taskID string, err error) {
 	r.apiEventChan <- &api.ReplicateAPIEvent{
 		EventType: api.ReplicateError,
+		TaskID:    taskID,
 		Error:     err,
 	}
 }
